@@ -38,6 +38,12 @@ func c09Units(th bool) []c09Unit {
 		m := c.Meta.(f1Meta)
 		id := fmt.Sprintf("A%d", k)
 		k++
+		if m.Reverse {
+			us = append(us, c09Unit{id: id,
+				decls: "type S" + id + " struct {\n\tF " + m.Src.Expr + "\n}\n\ntype D" + id + " struct {\n\tF " + m.Dst.Expr + "\n}\n",
+				notes: append([]string{":style arg", ":reverse"}, scen.Toggles(m.Tog[0], m.Tog[1], m.Tog[2], m.Tog[3], m.Tog[4])...), sig: "(*D" + id + ") *S" + id, name: "Conv" + id})
+			continue
+		}
 		us = append(us, c09Unit{id: id,
 			decls: "type S" + id + " struct {\n\tF " + m.Src.Expr + "\n}\n\ntype D" + id + " struct {\n\tF " + m.Dst.Expr + "\n}\n",
 			notes: scen.Toggles(m.Tog[0], m.Tog[1], m.Tog[2], m.Tog[3], m.Tog[4]), sig: "(*S" + id + ") *D" + id, name: "Conv" + id})
